@@ -25,15 +25,16 @@
                         (Proofs/LoaderBytesXstm.v): C13's side conditions (wide, wf_parts, xref_dict_ok), offsets fit
                         the second field, in-use rows = the document's identifiers, no compressed-object rows.
    Incremental updates (classic tables): Properties/C04b.v.
+   Spec/RenderObjStm.v  render_objstm objs stms X — the same with unfiltered OBJECT STREAMS [stms] (C14's description of a
+                        container) written among the objects; wf_olayout (Proofs/LoaderBytesOstm.v).
    Not covered (Model/LoaderBytes.v header): FILTERED xref / object streams (the abstraction reports them as plain
-   objects: the decoders need the zlib oracle), object streams in a theorem (the abstraction recognises unfiltered
-   ones; the extracted model agrees with the real loader on them), hybrid files in a theorem, referenced /Length —
+   objects: the decoders need the zlib oracle), hybrid files in a theorem, referenced /Length —
    for those the abstraction is still produced by props/loaderlib.py and validated per case. *)
 From PV Require Import Model.Obj Model.XrefTab Model.Loader Model.LoaderBytes Spec.Spelling Spec.XrefEnc Spec.RenderClassic.
 From PV Require Import Proofs.XrefBase Proofs.ObjStream Proofs.ObjSpell Proofs.Loader Proofs.LoaderObjs Proofs.LoaderMain Proofs.LoaderDoc
      Proofs.LoaderBytesBase Proofs.LoaderBytesObj Proofs.LoaderBytesSect Proofs.LoaderBytesMain Proofs.LoaderBytesEx
-     Proofs.XrefStm Proofs.LoaderBytesXstm Proofs.LoaderBytesXstmEx.
-From PV Require Import Spec.RenderXrefStm.
+     Proofs.XrefStm Proofs.LoaderBytesXstm Proofs.LoaderBytesXstmEx Proofs.LoaderBytesOstm Proofs.LoaderBytesOstmEx.
+From PV Require Import Spec.RenderXrefStm Spec.ObjStmEnc Spec.RenderObjStm.
 Close Scope N_scope.
 
 (* THE END-TO-END THEOREM: for every document, every legal classic layout and both build profiles, the loader
@@ -86,6 +87,35 @@ Proof. exact item_at_xstm. Qed.
 
 Theorem C03b_xrefstm_nonvacuous : wf_doc ex_doc /\ wf_xlayout ex_doc ex_xlayout.
 Proof. exact (conj ex_wf_doc ex_wf_xlayout). Qed.
+
+(* WITH OBJECT STREAMS (no filter): in-file objects [objs], containers [stms] (each as C14_extract describes it: any
+   header spelling, padding, gaps between members; members = what the object parser reads at the declared offsets), a
+   cross-reference stream whose in-use rows are the in-file objects and the containers and whose type-2 rows name the
+   container of every member.  The loader model run on the bytes defines the in-file objects and the members (under
+   generation 0) with their values, and besides them only the containers themselves (bookkeeping objects) *)
+Theorem C03_bytes_objstm : forall rel objs stms root X,
+  wf_olayout rel objs stms root X ->
+  exists c, load_bytes rel (render_objstm objs stms X) = Loaded c root /\
+            (forall id v, In (id, v) (objs ++ compressed stms) -> ctx_get c id = Some (VObj v)) /\
+            (forall id w, ctx_get c id = Some w ->
+               (exists v, w = VObj v /\ In (id, v) (objs ++ compressed stms)) \/
+               (exists o, In o stms /\ id = os_id o /\ w = VObjStm (os_members o))).
+Proof. exact load_bytes_objstm. Qed.
+
+(* a written container is an object-stream item with exactly its members (C14_extract in an empty context) *)
+Theorem C03b_item_ostm : forall rel o, wf_ostm rel o ->
+  obj_item rel (os_id o) (OStream (os_dict o) (os_content o)) =
+  IObjStm (os_id o) (N.of_nat (len (os_content o))) None (os_members o).
+Proof. exact obj_item_ostm. Qed.
+
+Theorem C03b_objstm_nonvacuous : forall rel, wf_olayout rel ex_oobjs [ex_ostm] (1, 0)%N ex_olayout.
+Proof. exact ex_wf_olayout. Qed.
+
+Theorem C03b_objstm_example_computed :
+  load_bytes false (render_objstm ex_oobjs [ex_ostm] ex_olayout) =
+  Loaded [((1, 0)%N, VObj (OName (B "Catalog"))); ((4, 0)%N, VObjStm [(5%N, OInt 11); (6%N, OInt 33)]);
+          ((5, 0)%N, VObj (OInt 11)); ((6, 0)%N, VObj (OInt 33))] (1, 0)%N.
+Proof. exact ex_ostm_computed. Qed.
 
 (* ---------- the per-offset facts (each for arbitrary surrounding bytes) ---------- *)
 (* the header scan skips garbage that does not contain the magic; HeaderP cannot fail behind it *)
@@ -144,6 +174,10 @@ Print Assumptions C03_bytes_xrefstm.
 Print Assumptions C03b_xrefstm_is_layout.
 Print Assumptions C03b_item_at_xstm.
 Print Assumptions C03b_xrefstm_nonvacuous.
+Print Assumptions C03_bytes_objstm.
+Print Assumptions C03b_item_ostm.
+Print Assumptions C03b_objstm_nonvacuous.
+Print Assumptions C03b_objstm_example_computed.
 Print Assumptions C03b_abstract_rendered.
 Print Assumptions C03b_magic_found.
 Print Assumptions C03b_header_found.
